@@ -85,9 +85,18 @@ import twzmc.harness as H
 def leaf(*a, **k):
     return H.node_body("leaf", a, k)
 
+@xn(setup={with_setup})
+def prep_inner(*a, **k):
+    return H.node_body("prep_inner", a, k)
+
+@xn(setup={with_setup})
+def prep_outer(*a, **k):
+    return H.node_body("prep_outer", a, k)
+
 @dag(max_concurrency={inner_mc})
 def inner_dag(v):
-    return leaf(v)
+    p = prep_inner()
+    return leaf(v, p)
 
 @xn(resource=Resource.{caller_res})
 def caller(*a, **k):
@@ -101,7 +110,8 @@ def other(*a, **k):
 
 @dag(max_concurrency={mc}, is_async={is_async})
 def outer(x):
-    r = caller(x)
+    q = prep_outer()
+    r = caller(x, q)
     o = other(x)
     return r, o
 '''
@@ -116,8 +126,9 @@ def runtime_nested_case(acc, c):
     for caller_res in ("thread", "async_thread"):
         for inner_res in ("thread", "async_thread", "main_thread"):
             for mc in (1, 2):
+              for with_setup in (False, True):  # setup nodes still pending in the calling AND in the called DAG
                 for is_async in (False, True):
-                    src = RUNTIME_NESTED_SRC.format(caller_res=caller_res, inner_res=inner_res, mc=mc, inner_mc=1, is_async=is_async)
+                    src = RUNTIME_NESTED_SRC.format(caller_res=caller_res, inner_res=inner_res, mc=mc, inner_mc=1, is_async=is_async, with_setup=with_setup)
                     ns = exec_source(src)
                     d = ns["outer"]
                     if is_async:
@@ -128,8 +139,8 @@ def runtime_nested_case(acc, c):
                             return d(1)
                     res = H.run_controlled(op, is_async=is_async, watchdog=8.0)
                     acc.evaluations += 1
-                    acc.mark_nontrivial(("runtime_nested", caller_res, inner_res, mc, is_async))
-                    case = dict(c, caller_res=caller_res, inner_res=inner_res, mc=mc, is_async=is_async)
+                    acc.mark_nontrivial(("runtime_nested", caller_res, inner_res, mc, is_async, with_setup))
+                    case = dict(c, caller_res=caller_res, inner_res=inner_res, mc=mc, is_async=is_async, with_setup=with_setup)
                     if res.outcome in ("hang", "spin") or res.forced:
                         acc.violation(V("hang", f"outer DAG whose {caller_res} node runs a DAG at run time ({inner_res} inner node, max_concurrency={mc}, is_async={is_async}) does not terminate",
                                         nested=True), case, (), res.trace, src)
